@@ -241,3 +241,17 @@ Example C08_example_run :
   [None; Some (SEvent ex_sub ex_a); None; Some (SEvent ex_sub ex_b); None; Some (SEose ex_sub);
    Some (SEvent ex_sub ex_c)].
 Proof. vm_compute. reflexivity. Qed.
+
+(** The set of ids already forwarded for the current timestamp has no bound: an
+    event whose id is in it is dropped and nothing is written, however many ids
+    the set holds (the code's map[string]bool; a cap or a reset of a full set
+    is a model difference on the histories of [c08ManySameTS]). *)
+Theorem C08_seen_set_unbounded : forall r3 sub e ids,
+  assoc sub (rs_seen r3) = Some ids -> In (ev_id e) ids ->
+  rs_dedup_limit r3 sub e = Some (r3, false).
+Proof.
+  intros r3 sub e ids Hs Hin. unfold rs_dedup_limit. rewrite Hs. cbn.
+  apply mem_str_In in Hin.
+  with_strategy transparent [h_ev_seen_reject] (unfold h_ev_seen_reject). cbn. rewrite Hin. reflexivity.
+Qed.
+Print Assumptions C08_seen_set_unbounded.
